@@ -2,11 +2,11 @@
 import os
 from tools.py2lean import gen_c19
 
-LEAN_TARGETS = ["EasyFEAVerif.Props.C19", "EasyFEAVerif.Props.C19General", "EasyFEAVerif.Props.C19Hardening"]
-PROPS_MODULES = ["EasyFEAVerif.Props.C19", "EasyFEAVerif.Props.C19General", "EasyFEAVerif.Props.C19Hardening"]
+LEAN_TARGETS = ["EasyFEAVerif.Props.C19", "EasyFEAVerif.Props.C19General", "EasyFEAVerif.Props.C19Hardening", "EasyFEAVerif.Props.C19Radial"]
+PROPS_MODULES = ["EasyFEAVerif.Props.C19", "EasyFEAVerif.Props.C19General", "EasyFEAVerif.Props.C19Hardening", "EasyFEAVerif.Props.C19Radial"]
 TRUSTED_EXTRA = [
     "C19: hand-written models (scalar return mapping of J2 plasticity with linear hardening; committed / trial state machine), tied by correspondence with Behavior.Integrate along random strain paths and with the private state of Simulations.InElastic, and by statement-level matching of the commit / trial statements, the von Mises surface and the linear hardening law",
-    "C19: the scalar return of a von Mises surface with any non-softening isotropic hardening law and any monotone rate term is proved to have at most one solution, exactly and up to a tolerance (Props/C19General.lean: step_unique, root_unique, roots_close — the algebraic content of 'both local solvers agree'); the three hardening constructors (Linear, Voce, Swift) are transcribed from lambdas pinned against the source and shown to satisfy the hypotheses under the ranges they assert, with R = d psi_h / dp and the tabulated slope = dR / dp (Props/C19Hardening.lean); that the tensorial problem of the library reduces to this scalar one is NOT proved (the reduction is exercised by the correspondence on random strain paths)",
+    "C19: the scalar return of a von Mises surface with any non-softening isotropic hardening law and any monotone rate term is proved to have at most one solution, exactly and up to a tolerance (Props/C19General.lean: step_unique, root_unique, roots_close — the algebraic content of 'both local solvers agree'); the three hardening constructors (Linear, Voce, Swift) are transcribed from lambdas pinned against the source and shown to satisfy the hypotheses under the ranges they assert, with R = d psi_h / dp and the tabulated slope = dR / dp (Props/C19Hardening.lean); the reduction of the tensorial step to this scalar one is proved for the von Mises surface in deviatoric space (Props/C19Radial.lean: the radial return solves the step, is its only non-zero solution, and its yield condition is the scalar residual); that Behavior.Integrate implements this step is exercised by the correspondence on random strain paths",
     "C19: Hill / Drucker-Prager surfaces, kinematic hardening, Maxwell branches, plane stress and the tensorial tangent are decided on the real code (partial)",
 ]
 ASSUMPTIONS = ["mu > 0, H >= 0, sigma_y > 0"]
